@@ -143,6 +143,25 @@ Theorem C10_rewriter_chain_spec :
 Proof. exact verified_rewriters_spec. Qed.
 Print Assumptions C10_rewriter_chain_spec.
 
+(* the chains VerifyRewriterConfigs accepts are exactly: none, or inline* followed by copy or unescape, every
+   inlined field named and present in the schema *)
+Theorem C10_accepted_chains :
+  forall schema ch,
+  verify_rewriters schema ch = true <->
+  ch = [] \/ exists fs last, ch = map RcInline fs ++ [last] /\ is_last last /\
+                             Forall (fun f => f <> [] /\ In f schema) fs.
+Proof. exact accepted_chains_lemma. Qed.
+Print Assumptions C10_accepted_chains.
+
+(* the documented result of an inline step, spelled out (an unfolding of the specification [rewrite_spec]) *)
+Theorem C10_inline_spec :
+  forall schema fields unescaped f rest value,
+  rewrite_spec schema fields unescaped (RcInline f :: rest) value
+  = if is_nil (field_value schema fields f) then rewrite_spec schema fields unescaped rest value
+    else f ++ [61] ++ field_value schema fields f ++ [32] ++ rewrite_spec schema fields unescaped rest value.
+Proof. exact inline_spec_lemma. Qed.
+Print Assumptions C10_inline_spec.
+
 (* ... and what is written never exceeds what was reserved *)
 Theorem C10_rewrite_within_reserved :
   forall schema fields unescaped ch value,
